@@ -1,0 +1,30 @@
+//go:build verif
+
+package matcher
+
+// Contracts for the matchers, checked by /verif/bin/govc (comment-only file; compiles to nothing).
+
+//@ func removeStringAt
+//@   requires idx: 0 <= idx && idx < len(arr)
+//@   ensures value: result == arr[:idx] ++ arr[idx+1:]
+
+//@ func removeStringsBetween
+//@   requires range: 0 <= from && from <= to && to < len(arr)
+//@   ensures value: result == arr[:from] ++ arr[to+1:]
+
+//@ func replaceStringAt
+//@   requires idx: 0 <= idx && idx < len(arr)
+//@   ensures value: result == upd(arr, idx, with)
+
+//@ func (*arg).Match
+//@   requires ctx: c != nil && c.Args != nil && arg != nil
+//@   ensures ok: result0 <==> (len(args) > 0 && (old(c.RejectOptions) || !hasPrefix(args[0], "-") || args[0] == "-"))
+//@   ensures rem: result0 ==> result1 == args[1:]
+//@   ensures norem: !result0 ==> result1 == args
+//@   ensures bind: result0 ==> c.Args[arg.arg] == old(c.Args[arg.arg]) ++ seq(args[0])
+//@   ensures others: forall k *container.Container :: k != arg.arg || !result0 ==> c.Args[k] == old(c.Args[k]) && ((k in c.Args) <==> old(k in c.Args))
+//@   ensures flag: c.RejectOptions == old(c.RejectOptions) && c.Args == old(c.Args) && c.Opts == old(c.Opts)
+
+//@ func (optsEnd).Match
+//@   requires ctx: c != nil
+//@   ensures ok: result0 && result1 == args && c.RejectOptions
